@@ -401,3 +401,29 @@ def model_check(ctx):
         "the model's negative values / out-of-range indices are errors (the code rejects such objects in its closing bounds check)",
         "partial_real_position / partial_*_shape are not among the constraint kinds C26 names; they enter only through the model's own run (drift)",
     ]
+
+
+def run(ctx, want):
+    """default pipeline of run.py with two changes: 4 instead of 8 concurrent trace-validation JVMs, and ONE retry of the
+    validation stage if TLC itself dies (observed once as rc=255 while 50 other jobs were running; a machinery failure is
+    never a verdict, the retry only avoids a spurious exit 2)."""
+    import json
+
+    from lib.tlc import MachineryError
+
+    model_check(ctx)
+    inputs = list(gen_cases(ctx, want))
+    recs = [observe(c) for c in inputs]
+    for r in recs[:2]:
+        ctx.sample(r)
+    ctx.nontrivial = len({json.dumps(c["sys"], sort_keys=True) for c in inputs})
+    by_id = {c["id"]: c for c in inputs}
+    for attempt in (1, 2):
+        try:
+            ctx.validate("Trace_Place", "Trace_Place.cfg", recs, by_id, classify=classify, chunk=150, parallel=4)
+            break
+        except MachineryError as e:
+            if attempt == 2 or "TLC failed" not in str(e):
+                raise
+            ctx.notes.append("trace validation retried once after a TLC process failure")
+            ctx.violations.clear(), ctx.drift.clear(), ctx.known_hits.clear()
